@@ -133,4 +133,24 @@ theorem getItemI_nat {α : Type} (l : List α) (i : Int) (h0 : 0 ≤ i) :
     getItemI l i = l[i.toNat]? := by
   simp only [getItemI, normIndex, h0, if_true]
   split <;> simp_all
+/-- decides every `if` whose condition is integer arithmetic over the facts in the context
+    (whatever way the condition is written, whichever branch comes first) -/
+macro "decide_ifs" : tactic =>
+  `(tactic| simp (disch := omega) only [if_pos, if_neg, decide_eq_true_eq, decide_eq_false_iff_not, bne_iff_ne,
+      beq_iff_eq, ne_eq, Bool.not_eq_true', Bool.not_eq_true, Bool.not_eq_false, Bool.not_true, Bool.not_false,
+      Bool.false_eq_true, Bool.true_eq_false, if_true, if_false, not_true_eq_false, not_false_eq_true,
+      Bool.and_true, Bool.true_and, Bool.or_false, Bool.false_or, Bool.and_eq_true, Bool.or_eq_true,
+      and_true, true_and, and_false, false_and, or_true, true_or, or_false, false_or])
+
+
+/-- `l[i]` for a Python integer known to be the natural number `n` in range -/
+theorem getItemI_cast {α : Type} (l : List α) (i : Int) (n : Nat) (h : i = (n : Int)) (hn : n < l.length) :
+    getItemI l i = some l[n] := by
+  subst h; simp [getItemI, normIndex, hn]
+
+/-- `l[i] = v` for a Python integer known to be the natural number `n` in range -/
+theorem setItemI_cast {α : Type} (l : List α) (i : Int) (n : Nat) (v : α) (h : i = (n : Int)) (hn : n < l.length) :
+    setItemI l i v = some (l.set n v) := by
+  subst h; simp [setItemI, normIndex, hn]
+
 end Asynkit.PyRt
